@@ -30,7 +30,10 @@ Inductive ctxobs :=
 | XDl (v : obs Z)       (* [.dl T]: three bytes, little endian *)
 | XAssign (v : obs Z)   (* [x := T] then [.dl x] *)
 | XImm (v : obs Z)      (* [lda.w #T]: two operand bytes *)
-| XLong (v : obs Z).    (* [lda.l T]: three operand bytes; defined for 0 <= value < 2^24 only *)
+| XLong (v : obs Z)     (* [lda.l T]: three operand bytes; defined for 0 <= value < 2^24 only *)
+| XSym (v : obs Z)      (* [x = T] then [.dl x]: a symbol bound when the passes run *)
+| XMarg (v : obs Z)     (* [.macro m(a) { .dl a }] / [m(T)]: a macro argument *)
+| XIf (v : obs Z).      (* [.if T { .db 1 } else { .db 0 }]: 1 iff the value is non-zero; an undefined name is false *)
 
 Inductive case :=
 | CTree (t : sexpr) (d : list (str * Z)) (toks : obs expr) (xs : list ctxobs)
@@ -42,7 +45,14 @@ Definition trunc (k : Z) (r : res Z) : res Z := do z <- r; Ok (z mod 2 ^ k).
 Definition ctx_ok (r : res Z) (x : ctxobs) : bool :=
   match x with
   | XStr v => agree Z.eqb r v
-  | XDl v | XAssign v => agree Z.eqb (trunc 24 r) v
+  | XDl v | XAssign v | XSym v | XMarg v => agree Z.eqb (trunc 24 r) v
+  | XIf v =>
+      match r with
+      | Ok z => agree Z.eqb (Ok (if z =? 0 then 0 else 1)) v
+      | Err ESymbol => agree Z.eqb (Ok 0) v
+      | Err _ => obs_is_err v
+      | OutOfFuel => false
+      end
   | XImm v => agree Z.eqb (trunc 16 r) v
   | XLong v =>
       match r with
